@@ -735,6 +735,9 @@ def r14(ctx):
 def run(ctx):
     from . import C10
     r14(ctx)
+    if ctx.config in ("all", "fs_iou"):
+        from . import C18
+        C18.r12(ctx)   # a ring fsync flushes when it is reaped - after the writes submitted before it
     C10.r5(ctx)   # what reaches the log is what the caller asked for: a truncating open logs its SetLen(0) also for a file it just created
     r13(ctx)
     r12(ctx)
